@@ -334,7 +334,7 @@ func applyArabicJoining(buffer *Buffer) {
 		if entry.prevAction != arabNone && prev != -1 {
 			info[prev].complexAux = entry.prevAction
 			buffer.safeToInsertTatweel(prev, len(buffer.Info))
-		} else if 2 <= state && state <= 5 /* States that have a possible prevAction. */ {
+		} else if 2 <= state && state <= 5 && prev != -1 /* States that have a possible prevAction. */ {
 			buffer.unsafeToConcat(prev, len(buffer.Info))
 		}
 		break
